@@ -282,7 +282,12 @@ class Run:
         # lines printed by Print Assumptions look like  "name : type"; keep only qualified names or known axioms
         axioms = [a for a in axioms if "." in a or a in ("classic", "functional_extensionality_dep", "sig_not_dec",
                                                        "sig_forall_dec", "proof_irrelevance", "JMeq_eq")]
+        # primitive machine integers / floats / arrays are listed by Print Assumptions but are not axioms of ours
+        prims = [a for a in axioms if re.match(r"(Uint63|PrimInt63|Sint63|PrimFloat|PrimArray|PArray|FloatOps|Int63|CPrimitives)\b", a)
+                 or a.split(".")[0] in ("Uint63", "PrimInt63", "PrimFloat", "PrimArray", "PArray", "Sint63")]
+        axioms = [a for a in axioms if a not in prims]
         self.cov["axioms"] = axioms
+        self.cov["primitives_listed_by_print_assumptions"] = prims
         forb = forbidden_tokens()
         if forb:
             rc = 1
